@@ -59,6 +59,8 @@ type Shared struct {
 	forks        int
 	queries      int
 	unknowns     int
+	retries      int
+	retryOK      int
 	solverErrors int
 	solverTime   time.Duration
 	workers      int
